@@ -3532,6 +3532,8 @@ def src1_iterator_sources(P, R, L, rule="SRC-1"):
     for bb in range(g.n):
         for st in g.blocks[bb]["stmts"]:
             if st["k"] == "assign" and st["rv"]["k"] == "aggregate" and "Range" in (st["rv"].get("adt") or ""):
+                if len(st["rv"]["ops"]) != 2:
+                    continue
                 a, e = st["rv"]["ops"]
                 if a["k"] == "const" and e["k"] == "const":
                     rng = (a.get("val"), e.get("val"))
@@ -3542,19 +3544,42 @@ def src1_iterator_sources(P, R, L, rule="SRC-1"):
         for bb in range(vb.n):
             for st in vb.blocks[bb]["stmts"]:
                 if st["k"] == "assign" and st["rv"]["k"] == "aggregate" and "Range" in (st["rv"].get("adt") or ""):
+                    if len(st["rv"]["ops"]) != 2:
+                        continue
                     a, e = st["rv"]["ops"]
                     if a["k"] == "const" and e["k"] == "const" and a.get("val") == "0":
                         nlev = e.get("val")
     okr = rng is not None and rng[0] == "1" and nlev is not None and rng[1] == nlev
+    nxt_calls = ["std::iter::range::next"]
+    if rng is None:
+        # `for level_files in self.files.iter().skip(1)`: every level but the first
+        sk = [c for c in g.calls() if not g.is_cleanup(c.bb) and (c.name or "").endswith("::skip") and len(c.args) == 2 and c.args[1]["k"] == "const"
+              and c.args[1].get("val") == "1" and any("files" in o.path for o in deep_origins(P, g, c.args[0]) + origins(g, c.args[0])) ]
+        if not sk:
+            sk = [c for c in g.calls() if not g.is_cleanup(c.bb) and (c.name or "").endswith("::skip") and len(c.args) == 2 and c.args[1]["k"] == "const"
+                  and c.args[1].get("val") == "1" and any(o.kind == "call" and o.site is not None and any("files" in x.path for x in origins(g, o.site.args[0]))
+                                                          for o in origins(g, c.args[0]))]
+        okr = len(sk) == 1
+        rng = ("skip(1)", "all") if okr else None
+        nxt_calls = None
     empty_edges = []
+    fe_new = [c for c in g.calls() if not g.is_cleanup(c.bb) and c.name == "versioning::file_iterators::FilesEntryIterator::new"]
+    level_list_sig = set()
+    for c in fe_new:
+        level_list_sig |= {(o.kind, o.name, o.site.bb if o.site is not None else None) for o in origins(g, c.args[0])}
     for c in g.calls():
-        if not g.is_cleanup(c.bb) and (c.name or "").endswith("::is_empty") and any("files" in o.path for o in origins(g, c.args[0])):
+        if g.is_cleanup(c.bb) or not (c.name or "").endswith("::is_empty"):
+            continue
+        os_ = origins(g, c.args[0])
+        same_list = bool({(o.kind, o.name, o.site.bb if o.site is not None else None) for o in os_} & level_list_sig)
+        if any("files" in o.path for o in os_) or same_list:
             for t in _bt(g, c.dest["l"]):
                 empty_edges += [(t.bb, x) for x in t.ok]
     okn = bool(ln) and all(in_cycle(g, c.bb) for c in ln)
     if okn:
         # from the loop's `Some(level)` edge every path back to the loop head passes the push or the is_empty edge
-        nxt = [c for c in g.calls() if not g.is_cleanup(c.bb) and c.name == "std::iter::range::next"]
+        nxt = [c for c in g.calls() if not g.is_cleanup(c.bb) and ((nxt_calls and c.name in nxt_calls) or
+               (not nxt_calls and (c.declared_name or "") == "std::iter::Iterator::next" and "Skip" in (c.name or "") + str(c.t.get("self_ty") or "")))]
         for n_ in nxt:
             for t in option_tests(g, n_.dest["l"]):
                 for e in t.ok:
@@ -3608,6 +3633,8 @@ def src2_lookup_candidates(P, R, L, rule="SRC-2"):
     for bb in range(b.n):
         for st in b.blocks[bb]["stmts"]:
             if st["k"] == "assign" and st["rv"]["k"] == "aggregate" and "Range" in (st["rv"].get("adt") or ""):
+                if len(st["rv"]["ops"]) != 2:
+                    continue
                 a, e = st["rv"]["ops"]
                 if a["k"] == "const" and e["k"] == "const":
                     rng = (a.get("val"), e.get("val"))
@@ -3617,6 +3644,8 @@ def src2_lookup_candidates(P, R, L, rule="SRC-2"):
         for bb in range(vb.n):
             for st in vb.blocks[bb]["stmts"]:
                 if st["k"] == "assign" and st["rv"]["k"] == "aggregate" and "Range" in (st["rv"].get("adt") or ""):
+                    if len(st["rv"]["ops"]) != 2:
+                        continue
                     a, e = st["rv"]["ops"]
                     if a["k"] == "const" and e["k"] == "const" and a.get("val") == "0":
                         nlev = e.get("val")
@@ -3853,9 +3882,26 @@ def pair13_block_indexed(P, R, L, rule="PAIR-13"):
                     o.kind == "call" and o.site is not None and any("index_block_builder" in x.path for a_ in o.site.args for x in origins(fz, a_)) for o in os_):
                 return "index"
             return "meta"
-        for c in ft:
-            a0 = [o.site for o in origins(fz, c.args[0]) if o.kind == "call" and o.site is not None and o.name.endswith("write_block")]
-            a1 = [o.site for o in origins(fz, c.args[1]) if o.kind == "call" and o.site is not None and o.name.endswith("write_block")]
+        pairs = [(c.args[0], c.args[1]) for c in ft]
+        if not ft:
+            # the footer may be written by a private helper that receives the two handles
+            for c in fz.calls():
+                h = P.bodies.get(c.t.get("resolved") or "")
+                if fz.is_cleanup(c.bb) or h is None or c.t.get("dyn") or not c.t.get("local"):
+                    continue
+                for x in h.calls():
+                    if not h.is_cleanup(x.bb) and x.name == "tables::footer::Footer::new":
+                        p0 = {o.name for o in origins(h, x.args[0]) if o.kind == "param"}
+                        p1 = {o.name for o in origins(h, x.args[1]) if o.kind == "param"}
+                        if len(p0) == 1 and len(p1) == 1:
+                            i0, i1 = p0.pop() - 1, p1.pop() - 1
+                            if max(i0, i1) < len(c.args):
+                                R.analysed(h)
+                                pairs.append((c.args[i0], c.args[i1]))
+            ok = bool(pairs) and len(wb) >= 2
+        for (m_op, i_op) in pairs:
+            a0 = [o.site for o in origins(fz, m_op) if o.kind == "call" and o.site is not None and o.name.endswith("write_block")]
+            a1 = [o.site for o in origins(fz, i_op) if o.kind == "call" and o.site is not None and o.name.endswith("write_block")]
             if not a0 or not a1 or fed(a0[0]) != "meta" or fed(a1[0]) != "index":
                 ok = False
         R.check(rule, fz.path + "|footer-handles", ok, where(fz), "Footer::new(handle of the metaindex block, handle of the index block)", "footer sites %d" % len(ft))
@@ -3935,10 +3981,33 @@ def own11_table_cache_key(P, R, L, rule="OWN-11"):
     ins = [c for c in b.calls() if not b.is_cleanup(c.bb) and (c.declared_name or "").endswith("Cache::insert")]
     paths = [c for c in b.calls() if not b.is_cleanup(c.bb) and c.name == "file_names::FileNameHandler::get_table_file_path"]
     opens = [c for c in b.calls() if not b.is_cleanup(c.bb) and c.name == "tables::table::Table::open"]
-    ok = bool(gets) and bool(ins) and bool(paths) and bool(opens) and all(is_p(c.args[1]) for c in gets + ins + paths)
+    if not opens:
+        # the open may live in a private helper `(file number) -> Table`
+        for c in b.calls():
+            h = P.bodies.get(c.t.get("resolved") or "")
+            if b.is_cleanup(c.bb) or h is None or c.t.get("dyn") or not c.t.get("local"):
+                continue
+            hp = [x for x in h.calls() if not h.is_cleanup(x.bb) and x.name == "file_names::FileNameHandler::get_table_file_path"]
+            ho = [x for x in h.calls() if not h.is_cleanup(x.bb) and x.name == "tables::table::Table::open"]
+            if hp and ho:
+                ks = {o.name for x in hp for o in origins(h, x.args[1]) if o.kind == "param"}
+                fine = len(ks) == 1 and all(any(o.kind == "call" and (o.name or "").endswith("::open_file") for o in origins(h, x.args[1])) for x in ho) and \
+                    any(o.kind == "call" and o.name == "tables::table::Table::open" for bb_ in _ok_blocks(h) or h.return_blocks() for st_ in h.blocks[bb_]["stmts"]
+                        if st_["k"] == "assign" and st_["pl"]["l"] == 0 for op_ in st_["rv"].get("ops", []) if op_["k"] in ("copy", "move") for o in origins(h, op_)) or \
+                    any(x.dest["l"] == 0 for x in ho)
+                k = ks.pop() if len(ks) == 1 else None
+                if fine and k is not None and k - 1 < len(c.args) and is_p(c.args[k - 1]):
+                    R.analysed(h)
+                    helper_open = c
+                    paths, opens = [c], [c]
+                    helper_mode = True
+    helper_mode = bool(opens) and opens[0].name != "tables::table::Table::open"
+    ok = bool(gets) and bool(ins) and bool(paths) and bool(opens) and all(is_p(c.args[1]) for c in gets + ins) and \
+        (helper_mode or all(is_p(c.args[1]) for c in paths))
     # the inserted value is the table opened from that path
-    val_ok = all(any(o.kind == "call" and o.name == "tables::table::Table::open" for o in origins(b, c.args[2])) for c in ins)
-    file_ok = all(any(o.kind == "call" and (o.declared_name if hasattr(o, "declared_name") else o.name or "").endswith("open_file") or
+    val_ok = all(any(o.kind == "call" and (o.name == "tables::table::Table::open" or (helper_mode and o.site is not None and o.site.bb == opens[0].bb))
+                     for o in origins(b, c.args[2])) for c in ins)
+    file_ok = helper_mode or all(any(o.kind == "call" and (o.declared_name if hasattr(o, "declared_name") else o.name or "").endswith("open_file") or
                       (o.kind == "call" and (o.name or "").endswith("::open_file")) for o in origins(b, c.args[1])) for c in opens)
     R.check(rule, fn + "|one-key", ok and val_ok and file_ok, where(b),
             "cache lookup, file path and cache insertion all use the requested file number; the cached value is the table opened from that file",
